@@ -355,6 +355,7 @@ def run(ctx, rep):
     # number of owners - wherever it was broken - falsifies the sole-owner verdict these functions act on)
     balance.rule_bal(ctx, rep)
     balance.rule_unw(ctx, rep)
+    balance.rule_racy_assert(ctx, rep, strict=True)  # no assertion about a re-read count that a racing clone or drop can falsify: the operation would panic where it must succeed or decline
     from . import c12 as _c12
 
     _c12.union_dispatch(ctx, rep)  # ... including owners held by an ArcUnion: they are counted on the block of the Arc they were made from
@@ -380,6 +381,7 @@ def main(argv):
             "seeing the old value follows: the write target is solely owned (C03 gate) or fresh. Not decided: visibility of writes as a run-time "
             "observation; schedules (reduced to C02/C03)."
             ' Round fourteen: c12.union_dispatch as a premise (the sole-owner verdict reads a count that owners held by an ArcUnion must have reached).'
+            ' Round fifteen: strict R-RACY-ASSERT (no assertion about a re-read count that a racing clone or drop can falsify).'
         ),
         rule_text="instances = (function, path-set | order | gate/write-back)",
         trusted_base=["rustc nightly MIR and trait resolution", "std model table", "C03's gate and C02's ordering lemma for the concurrent part"],
